@@ -1215,6 +1215,13 @@ static void struct_initializer2(Token **rest, Token *tok, Initializer *init, Mem
 }
 
 static void union_initializer(Token **rest, Token *tok, Initializer *init) {
+  // An empty union (a GNU extension) has no member to initialize.
+  if (!init->ty->members) {
+    init->mem = NULL;
+    *rest = equal(tok, "{") ? skip(tok->next, "}") : tok;
+    return;
+  }
+
   // Unlike structs, union initializers take only one initializer,
   // and that initializes the first union member by default.
   // You can initialize other member using a designated initializer.
@@ -1386,6 +1393,8 @@ static Node *create_lvar_init(Initializer *init, Type *ty, InitDesg *desg, Token
 
   if (ty->kind == TY_UNION && !init->expr) {
     Member *mem = init->mem ? init->mem : ty->members;
+    if (!mem)
+      return new_node(ND_NULL_EXPR, tok);
     InitDesg desg2 = {desg, 0, mem};
     return create_lvar_init(init->children[mem->idx], mem->ty, &desg2, tok);
   }
